@@ -17,10 +17,15 @@ func description(b []byte) ([]byte, error) {
 		return b, err
 	}
 
-	b = bytes.TrimLeft(b, "\r\n")
 	b = bytes.TrimRight(b, "\r\n\t ")
 
 	lines := bytes.Split(b, []byte{'\n'})
+
+	// A line of whitespaces is a blank line too: the leading ones are removed
+	// like the empty ones (the trailing ones are trimmed above).
+	for len(lines) > 1 && isBlankLine(lines[0]) {
+		lines = lines[1:]
+	}
 
 	prefix := longestWhitespacePrefix(lines)
 	for i := 0; i < len(lines); i++ {
@@ -75,7 +80,7 @@ func longestWhitespacePrefix(bb [][]byte) []byte {
 	}
 
 	for i := 1; i < len(bb); i++ {
-		if len(bb[i]) != 0 {
+		if !isBlankLine(bb[i]) { // blank lines have no indentation to share
 			for !bytes.HasPrefix(bb[i], prefix) {
 				prefix = prefix[:len(prefix)-1]
 				if len(prefix) == 0 {
@@ -86,4 +91,8 @@ func longestWhitespacePrefix(bb [][]byte) []byte {
 	}
 
 	return prefix
+}
+
+func isBlankLine(b []byte) bool {
+	return len(bytes.Trim(b, " \t")) == 0
 }
